@@ -15,7 +15,7 @@ import os, sys, json, hashlib, time, traceback, signal, collections, multiproces
 VERIF = os.path.dirname(os.path.dirname(os.path.abspath(__file__)))
 REPO = os.environ.get('LARK_REPO', '/repo')
 NPROC = int(os.environ.get('VERIF_NPROC', '16'))
-CASE_LIMIT_S = float(os.environ.get('VERIF_CASE_LIMIT', '40'))
+CASE_LIMIT_S = float(os.environ.get('VERIF_CASE_LIMIT', '20'))
 SHRINK_BUDGET_S = float(os.environ.get('VERIF_SHRINK_BUDGET', '45'))
 
 
@@ -114,7 +114,7 @@ def _alarm(signum, frame):
 
 def _call_with_limit(fn, case, ctx, limit):
     signal.signal(signal.SIGALRM, _alarm)
-    signal.setitimer(signal.ITIMER_REAL, limit)
+    signal.setitimer(signal.ITIMER_REAL, limit, 0.5)     # repeating: an alarm that lands inside a GC callback is swallowed
     try:
         return fn(case, ctx)
     finally:
@@ -181,6 +181,9 @@ def _run_shard(args):
 
 def _run_shard_inner(modname, tier, seed, phase_index, shard, nshards):
     import importlib
+    if os.environ.get('VERIF_FAULT'):
+        import faulthandler
+        faulthandler.dump_traceback_later(int(os.environ['VERIF_FAULT']), exit=True, file=open('/tmp/fault-%d.txt' % os.getpid(), 'w'))
     module = importlib.import_module(modname)
     ctx = Ctx(module, tier, seed, load_findings(module.ID))
     phase = module.phases(tier)[phase_index]
@@ -338,6 +341,8 @@ def main(module, argv=None):
     for pi, phase in enumerate(phases):
         if ns.phase and ns.phase not in phase.name:
             continue
+        if total['violations'] or total['harness_errors']:
+            break
         if ns.scale != 1 and phase.kind == 'hypothesis':
             pass
         nsh = NPROC
@@ -346,8 +351,12 @@ def main(module, argv=None):
         if not phase.exhaustive:
             exhaustive_all = False
         tp = time.time()
-        with mpctx.Pool(min(NPROC, nsh)) as pool:
-            results = pool.map(_run_shard, [(module.__name__, tier, seed, pi, k, nsh) for k in range(nsh)], chunksize=1)
+        import concurrent.futures
+        try:
+            with concurrent.futures.ProcessPoolExecutor(max_workers=min(NPROC, nsh), mp_context=mpctx) as pool:
+                results = list(pool.map(_run_shard, [(module.__name__, tier, seed, pi, k, nsh) for k in range(nsh)]))
+        except concurrent.futures.process.BrokenProcessPool:
+            results = [{'fatal': 'a worker process of phase %s died (killed / out of memory?)' % phase.name, 'shard': -1}]
         pev = 0
         for r in results:
             if 'fatal' in r:
